@@ -607,11 +607,10 @@ def enabled_ops(m, alphabet, base, s):
     for u in V:
         for w in V:
             ops.append(["has_edge", u, w])
-            labs = [l for (a, b, l) in m.E if a == u and b == w]
-            if labs:
-                ops.append(["edge_labels", u, w])
-            if len(labs) == 1:
-                ops.append(["edge_label", u, w])
+            # edge_labels on any pair (no edge: an empty list); edge_label on any pair (documented to raise
+            # unless there is exactly one edge) - the queries must not change the automaton either way
+            ops.append(["edge_labels", u, w])
+            ops.append(["edge_label", u, w])
     for u in V:
         ops.append(["neighbors", u])
         ops.append(["edges_at", u])
@@ -656,7 +655,16 @@ def apply_op(st, op, v, retained):
             v.append({"key": "history/has_edge/" + cls, "msg": "has_edge(%r, %r) = %r" % (op[1], op[2], got)})
     elif name in ("edge_labels", "edge_label"):
         exp = sorted(l for (a, b, l) in m.E if a == op[1] and b == op[2])
-        got = f.edge_labels(op[1], op[2]) if name == "edge_labels" else [f.edge_label(op[1], op[2])]
+        if name == "edge_labels":
+            got = list(f.edge_labels(op[1], op[2]))
+        else:
+            try:
+                got = [f.edge_label(op[1], op[2])]
+                if len(exp) != 1:
+                    v.append({"key": "history/edge_label/no-error/" + cls, "msg": "edge_label(%r, %r) = %r although there are %d edges" % (op[1], op[2], got, len(exp))})
+                    got = exp
+            except ValueError:
+                got = exp if len(exp) != 1 else ["<ValueError>"]
         if sorted(got) != exp:
             v.append({"key": "history/%s/%s" % (name, cls), "msg": "%s(%r, %r) = %r, model %r" % (name, op[1], op[2], got, exp)})
     elif name == "neighbors":
@@ -839,7 +847,7 @@ def run(ctx):
                "initial_accepted_subword and default-start calls read start_vertices)")
     ctx.assume("relabelling maps are injective and defined on every label of the alphabet")
     ctx.assume("words are strings over single-letter labels; for the k-multiple automaton a word is the list of its k-letter chunks")
-    ctx.assume("edge_labels / edge_label are only queried on existing edges; has_edge on any pair of vertices")
+    ctx.assume("has_edge, edge_labels and edge_label are queried on every ordered pair of vertices; edge_label may raise ValueError unless there is exactly one edge (documented)")
     ctx.assume("initial_rejected_subword is called but its return value is not judged (the property does not pin it)")
     ctx.assume("remove_long_paths(edge_ties=False) is only required to be a spanning tree of shortest-path edges; "
                "vertex sets are compared for recurrent() only (language checks run from every vertex elsewhere)")
@@ -880,7 +888,7 @@ def run(ctx):
         for route in ("graph", "edits") if q else ("graph", "out", "edits"):
             roots.append([["root", k, ab, [list(e) for e in E], route, 0]])
     ctx.bfs("query-operation-histories", "checks.c10:case_history", roots, depth=3 if q else 5,
-            domains={"roots": len(roots), "queries": "has_edge, edge_labels/edge_label (existing edges), neighbors_in/out, "
+            domains={"roots": len(roots), "queries": "has_edge, edge_labels/edge_label (all vertex pairs), neighbors_in/out, "
                      "edges_in/out, enumerate_words, accepts, follow_word, initial_accepted_subword (words <= 2 labels)",
                      "operations": "rename_generators (all injective maps, in place or not), recurrent (in place or not), "
                                    "remove_long_paths (every root, edge_ties), automaton_multiple(1,2), even_automaton, deepcopy"},
